@@ -7,6 +7,8 @@ package vclient
 import (
 	"time"
 
+	"verif/internal/sched"
+
 	"github.com/zitadel/oidc/v3/pkg/oidc"
 	"github.com/zitadel/oidc/v3/pkg/op"
 )
@@ -36,19 +38,40 @@ type Client struct {
 	DropIDTokenScopes []string
 }
 
-func (c *Client) GetID() string                        { return c.ID }
-func (c *Client) RedirectURIs() []string               { return c.Redirects }
-func (c *Client) PostLogoutRedirectURIs() []string     { return c.PostLogout }
-func (c *Client) ApplicationType() op.ApplicationType  { return c.AppType }
-func (c *Client) AuthMethod() oidc.AuthMethod          { return c.Auth }
-func (c *Client) ResponseTypes() []oidc.ResponseType   { return c.RespTypes }
-func (c *Client) GrantTypes() []oidc.GrantType         { return c.Grants }
-func (c *Client) LoginURL(id string) string            { return c.LoginPrefix + id }
-func (c *Client) AccessTokenType() op.AccessTokenType  { return c.TokenType }
-func (c *Client) IDTokenLifetime() time.Duration       { return c.IDTokenTTL }
-func (c *Client) DevMode() bool                        { return c.Dev }
-func (c *Client) IDTokenUserinfoClaimsAssertion() bool { return c.UserinfoInIDTok }
-func (c *Client) ClockSkew() time.Duration             { return c.Skew }
+func (c *Client) GetID() string          { sched.Point("client:GetID"); return c.ID }
+func (c *Client) RedirectURIs() []string { sched.Point("client:RedirectURIs"); return c.Redirects }
+func (c *Client) PostLogoutRedirectURIs() []string {
+	sched.Point("client:PostLogoutRedirectURIs")
+	return c.PostLogout
+}
+func (c *Client) ApplicationType() op.ApplicationType {
+	sched.Point("client:ApplicationType")
+	return c.AppType
+}
+func (c *Client) AuthMethod() oidc.AuthMethod { sched.Point("client:AuthMethod"); return c.Auth }
+func (c *Client) ResponseTypes() []oidc.ResponseType {
+	sched.Point("client:ResponseTypes")
+	return c.RespTypes
+}
+func (c *Client) GrantTypes() []oidc.GrantType { sched.Point("client:GrantTypes"); return c.Grants }
+func (c *Client) LoginURL(id string) string {
+	sched.Point("client:LoginURL")
+	return c.LoginPrefix + id
+}
+func (c *Client) AccessTokenType() op.AccessTokenType {
+	sched.Point("client:AccessTokenType")
+	return c.TokenType
+}
+func (c *Client) IDTokenLifetime() time.Duration {
+	sched.Point("client:IDTokenLifetime")
+	return c.IDTokenTTL
+}
+func (c *Client) DevMode() bool { sched.Point("client:DevMode"); return c.Dev }
+func (c *Client) IDTokenUserinfoClaimsAssertion() bool {
+	sched.Point("client:IDTokenUserinfoClaimsAssertion")
+	return c.UserinfoInIDTok
+}
+func (c *Client) ClockSkew() time.Duration { sched.Point("client:ClockSkew"); return c.Skew }
 func (c *Client) RestrictAdditionalIdTokenScopes() func(scopes []string) []string {
 	if len(c.DropIDTokenScopes) == 0 {
 		return func(scopes []string) []string { return scopes }
